@@ -56,6 +56,20 @@ def o_xmd(ctx, case):
     if raised is not None:
         ctx.violation("xmd", "refused_valid", case, f"raised {raised!r} for a valid request")
         return
+    # the hash function handed over as another kind of constructor with the same behaviour (the argument
+    # is "a hashlib-style constructor", not the object hashlib.sha256 itself)
+    style = case.get("ctor", 0)
+    if style:
+        import functools
+        H2 = (lambda data=b"": hashlib.new(name, data)) if style == 1 else functools.partial(hashlib.new, name)
+        try:
+            got2 = expand_message_xmd(msg, dst, n, H2)
+        except (TypeError, AttributeError):
+            ctx.label("xmd:ctor_style_refused")
+        else:
+            ctx.check(bytes(got2) == bytes(got), "xmd", "constructor_identity", case,
+                      "the output depends on WHICH constructor object for the same hash function is passed")
+            ctx.label("xmd:other_ctor_style")
     want = h2c.expand_message_xmd(msg, dst, n, name)
     ok = isinstance(got, (bytes, bytearray)) and len(got) == n and bytes(got) == want
     if not ok:
@@ -135,7 +149,7 @@ def s_xmd(draw):
     msg = draw(st.one_of(sized_binary((0, 1, bs - 1, bs, bs + 1, 2 * bs), 300),
                          st.binary(min_size=1024, max_size=4096) if draw(st.integers(0, 19)) == 0
                          else st.binary(max_size=64)))
-    return {"msg": hx(msg), "dst": draw(s_dst()), "n": n, "hash": name}
+    return {"msg": hx(msg), "dst": draw(s_dst()), "n": n, "hash": name, "ctor": draw(st.sampled_from([0, 0, 1, 2]))}
 
 
 @st.composite
